@@ -427,8 +427,8 @@ impl Check for C02 {
             real: &["h3::frame::FrameStream", "h3::frame::FrameDecoder", "h3::proto::frame::Frame::decode", "h3::stream::BufRecvStream", "h3::buf::BufList", "h3::proto::varint", "h3::error::internal_error::InternalConnectionError::got_frame_error"],
             stub: &["QUIC transport (SimQuic receive stream fed by a scripted writer)", "executor (simexec)", "reader task obeying the poll_next/poll_data contract"],
             assumptions: &["transport chunks are never empty", "0x41 (WebTransport bidi signal) is not generated as a frame type: it is an extension with its own framing (C19)", "for SETTINGS with a truncated entry both H3_FRAME_ERROR and H3_SETTINGS_ERROR are admissible"],
-            quick_runs: 150_000,
-            thorough_runs: 8_000_000,
+            quick_runs: 3_000_000,
+            thorough_runs: 120_000_000,
         }
     }
     fn run(&self, ctx: &RunCtx) -> RunOut {
